@@ -84,6 +84,9 @@ impl Exec {
     pub fn hard_fired(&self, op: u32) -> bool {
         simos::with_ctx(|c| c.io.hard_fired(op)).unwrap_or(false)
     }
+    pub fn eintr_fired(&self, op: u32) -> bool {
+        simos::with_ctx(|c| c.io.eintr_fired(op)).unwrap_or(false)
+    }
     pub fn transient_fired(&self, op: u32) -> bool {
         simos::with_ctx(|c| c.io.transient_fired(op)).unwrap_or(false)
     }
